@@ -468,7 +468,23 @@ mod store {
             let rp = format!("C01{}{}{}", if had_reopen { ",C02" } else { "" }, if had_merge { ",C05,C12" } else { "" }, if had_fault { ",C20" } else { "" });
             let rp = rp.as_str();
             let h = kv.as_ref().unwrap().get_handle();
+            // `!op`: the environment is healthy again at this point, so the operation must succeed (C20: a failed
+            // operation leaves the store usable)
+            let must = op.starts_with('!');
+            let op: &str = if must { &op[1..] } else { op };
             let p: Vec<&str> = op.split(' ').collect();
+            if must {
+                let r: Result<(), String> = match p[0] {
+                    "set" => h.set(b(p[1]), b(p[2])).map_err(|e| e.to_string()),
+                    "del" => h.del(b(p[1])).map(|_| ()).map_err(|e| e.to_string()),
+                    "merge" => h.verif_merge().map_err(|e| e.to_string()),
+                    _ => Ok(()),
+                };
+                if let Err(e) = r {
+                    report("wedged", "C20", &hist, format!("op {} `{}` failed although nothing is wrong with the disk any more: {}; files {:?}", i, op, e, files(dir.path())), "Ok: after a failed operation the store stays usable");
+                }
+                match p[0] { "set" => { model.insert(p[1].into(), p[2].into()); alt.remove(p[1]); continue; } "del" => { model.remove(p[1]); alt.remove(p[1]); continue; } "merge" => { had_merge = true; continue; } _ => {} }
+            }
             match p[0] {
                 "set" => { match h.set(b(p[1]), b(p[2])) { Ok(()) => { model.insert(p[1].into(), p[2].into()); alt.remove(p[1]); } Err(e) => { println!("# op {} `{}` failed: {}", i, op, e); alt.insert(p[1].into(), Some(p[2].into())); had_fault = true; } } }
                 "del" => { match h.del(b(p[1])) {
